@@ -28,6 +28,7 @@ use super::constant::MIN_BLOCK_SIZE;
 use super::error::verify_range;
 use super::error::verify_true;
 use super::error::SourceError;
+use super::error::SourceErrorReason;
 use super::error::VerifyError;
 
 /// Traits for buffer-like objects that can be filled by [`Source`].
@@ -279,6 +280,9 @@ impl Fill for FrameBuf {
     fn fill_interleaved(&mut self, interleaved: &[i32]) -> Result<(), SourceError> {
         let stride = self.size();
         let channels = self.channels();
+        if interleaved.len() > self.samples.len() || interleaved.len() % channels != 0 {
+            return Err(SourceError::by_reason(SourceErrorReason::InvalidBuffer));
+        }
         deinterleave(interleaved, channels, stride, &mut self.samples);
         self.filled_size = interleaved.len() / channels;
         Ok(())
@@ -286,7 +290,13 @@ impl Fill for FrameBuf {
 
     #[inline]
     fn fill_le_bytes(&mut self, bytes: &[u8], bytes_per_sample: usize) -> Result<(), SourceError> {
+        if !(1..=4).contains(&bytes_per_sample) || bytes.len() % bytes_per_sample != 0 {
+            return Err(SourceError::by_reason(SourceErrorReason::InvalidBuffer));
+        }
         let sample_count = bytes.len() / bytes_per_sample;
+        if sample_count > self.samples.len() || sample_count % self.channels() != 0 {
+            return Err(SourceError::by_reason(SourceErrorReason::InvalidBuffer));
+        }
         self.readbuf.resize(sample_count, 0);
         le_bytes_to_i32s(bytes, &mut self.readbuf, bytes_per_sample);
 
@@ -418,6 +428,9 @@ impl Fill for Context {
 
     #[inline]
     fn fill_le_bytes(&mut self, bytes: &[u8], bytes_per_sample: usize) -> Result<(), SourceError> {
+        if bytes_per_sample != self.bytes_per_sample {
+            return Err(SourceError::by_reason(SourceErrorReason::InvalidBuffer));
+        }
         if bytes.is_empty() {
             return Ok(());
         }
